@@ -8,8 +8,9 @@ import ScryerModel.Model.Csv
      frame  : `<header row>/<row>/<row>...`      (`[]` header when there is none)
      opts   : `<sep code point hex> <0|1 with_header> <line_separator text> <null_value text or ->`
    Ops:
-     rt <id> <opts> <frame>     -> W=<text|fail> A=<text|fail> WF=<0|1> PW=<frame|fail|-> PA=<frame|fail|->
-        (W documented writer, A writer as the code stands, PW/PA = reader on those texts)
+     rt <id> <write opts> <read sep> <read with_header> <frame>  -> W=<text|fail> A=<text|fail> WF=<0|1> PW=<frame|fail|-> PA=<frame|fail|->
+        (W documented writer, A writer as the code stands, PW/PA = reader with the read options on
+         those texts, WF = hypotheses of the round trip for the write options)
      parse <id> <opts> <text>   -> ok <frame> | fail
 -/
 open Scryer.Drv Scryer.Csv
@@ -97,11 +98,11 @@ def encOF : Option Frame → String
   | some t => encFrame t
   | none => "fail"
 
-def rtLine (o : Opts) (t : Frame) : String :=
+def rtLine (o ro : Opts) (t : Frame) : String :=
   let w := writeCsv o t
   let a := writeCsvAsIs o t
-  let pw := match w with | some x => encOF (parseCsv o x) | none => "-"
-  let pa := match a with | some x => encOF (parseCsv o x) | none => "-"
+  let pw := match w with | some x => encOF (parseCsv ro x) | none => "-"
+  let pa := match a with | some x => encOF (parseCsv ro x) | none => "-"
   s!"W={encOT w} A={encOT a} WF={if wf o t then 1 else 0} PW={pw} PA={pa}"
 
 end Scryer.CsvDrv
@@ -110,10 +111,10 @@ open Scryer.CsvDrv in
 def main : IO Unit := runDriver fun
   | "rt" :: _ :: args :: _ =>
     match words args with
-    | [a, b, c, d, fr] =>
-      match decOpts a b c d, decFrame fr with
-      | some o, some t => rtLine o t
-      | _, _ => "bad-args"
+    | [a, b, c, d, rs, rh, fr] =>
+      match decOpts a b c d, decOpts rs rh "a" "-", decFrame fr with
+      | some o, some ro, some t => rtLine o ro t
+      | _, _, _ => "bad-args"
     | _ => "bad-args"
   | "parse" :: _ :: args :: _ =>
     match words args with
